@@ -140,6 +140,11 @@ func ustrEqStr(u UStr, s Str) *Term {
 	return r
 }
 
+// OpaqueFloat is a floating-point value the engine does not track (derived from
+// a symbolic integer). Arithmetic on it stays opaque; converting it back to an
+// integer yields an unconstrained fresh symbol; comparing it forks freely.
+type OpaqueFloat struct{}
+
 type Iface struct {
 	T types.Type
 	V Value
@@ -183,6 +188,7 @@ type timerState struct {
 	active   bool
 	period   *Term
 	fired    bool
+	polledAt *Term
 }
 
 func isNilValue(v Value) bool {
